@@ -30,16 +30,15 @@ def main(tier):
             if ok and rec.get("overlay") and len(run.samples) < 5:
                 run.sample(e2props.sample_of(rec))
         run.floor("cases explored for %s (%s)" % (entry, prof), len(recs), 3 if entry == "new_node" else 10)
-    # constructors establish J: an empty arena has no nodes
+    # constructors establish J: an empty arena has no nodes and an empty free list (decided on the values E2 computes for new/default/with_capacity)
+    cdata = e2props.load(run, profiles, ["ctor"])
+    for (prof, entry), recs in sorted(cdata.items()):
+        for name in ("new", "default", "with_capacity"):
+            rs = [r for r in recs if r.get("table") == name]
+            ok = bool(rs) and all(r.get("exit") == "return" and all(r.get("fields", {}).get(fn) == ("Vec(len=0)" if fn == "nodes" else "None") for fn in r.get("adt_fields", [])) for r in rs)
+            run.ob("constructors", "Arena::%s/%s builds an empty arena (no slots, empty free list)" % (name, prof), ok,
+                   key="constructors|crate::arena::Arena<T>::%s is not a plain empty-arena constructor" % name, detail=rs, nontrivial=("ctor", name))
     prog = facts.load("dev", None)
-    for k in ("crate::arena::Arena<T>::with_capacity", "<crate::arena::Arena<T> as core::default::Default>::default"):
-        f = prog.fns.get(k)
-        if run.ob("constructors", "%s exists" % k, f is not None, key="constructors|missing " + k):
-            aggs = [s for _, _, s in prog.stmts(f) if s["k"] == "assign" and s["rv"]["k"] == "aggregate" and s["rv"].get("adt") == "crate::arena::Arena"]
-            names = [rules.callee_name(t["callee"]) for _, t in prog.calls(f)]
-            ok = len(aggs) == 1 and all(n.startswith("alloc::vec::Vec::<T>::") for n in names)
-            run.ob("constructors", "%s builds an empty arena (one Arena aggregate from Vec::new/with_capacity)" % k, ok,
-                   key="constructors|%s is not a plain empty-arena constructor" % k, detail=names, nontrivial=("ctor", k))
     run.extra["written_argument"] = ("J4 (the nodes naming p as parent are exactly the next-chain first(p)..last(p)) follows from J2 and J3 on a finite "
                                      "arena: by J2b/J2a every sibling chain has one parent; by J2d its head is first(p) and its tail last(p); two distinct "
                                      "chains with parent p would need two heads with prev=None, both equal to first(p) by J2d.")
